@@ -636,6 +636,22 @@ type Fact struct {
 	Cond ssa.Value
 	Val  bool
 	If   *ssa.If
+	Res  ssa.Value // on a path: the condition with the phis of the blocks walked through resolved at the time of the branch
+	X, Y ssa.Value // on a path, for a comparison: its operands as they resolved at the time of the branch
+}
+
+// FactCmp reads a fact as a comparison (see AsCmp), looking through a boolean
+// variable that the path had already resolved when it branched on it.
+func FactCmp(f Fact) (Cmp, bool) {
+	if f.Res != nil {
+		if c, ok := AsCmp(f.Res, f.Val); ok {
+			if f.X != nil && f.Y != nil {
+				c.X, c.Y = f.X, f.Y
+			}
+			return c, true
+		}
+	}
+	return AsCmp(f.Cond, f.Val)
 }
 
 // FactsAt returns the branch conditions that hold whenever block b executes:
@@ -917,6 +933,19 @@ func Walk(v ssa.Value, visit func(ssa.Value) bool) {
 					}
 				}
 			}
+		case *ssa.MakeSlice:
+			// a slice filled in place: whatever is stored into its elements
+			if refs := x.Referrers(); refs != nil {
+				for _, r := range *refs {
+					if ia, ok := r.(*ssa.IndexAddr); ok && ia.X == ssa.Value(x) {
+						for _, rr := range *ia.Referrers() {
+							if st, ok := rr.(*ssa.Store); ok && st.Addr == ssa.Value(ia) {
+								rec(st.Val)
+							}
+						}
+					}
+				}
+			}
 		case *ssa.FreeVar:
 			if b := Binding(x); b != nil {
 				rec(b)
@@ -997,9 +1026,19 @@ func Leaves(v ssa.Value) []ssa.Value {
 				return true
 			}
 		}
+		// a parameter or the call of an expanded callee is not a leaf: it stands for the argument / the returned value
+		if par, ok := x.(*ssa.Parameter); ok && Unwrap(par) != ssa.Value(par) {
+			return true
+		}
+		if c, ok := x.(*ssa.Call); ok && expandedCallee(c) != nil && c.Call.Signature().Results().Len() == 1 {
+			return true
+		}
 		switch x.(type) {
+		case *ssa.MakeSlice:
+			out = append(out, x)
+			return true // and whatever is stored into its elements
 		case *ssa.Parameter, *ssa.Call, *ssa.Const, *ssa.Global, *ssa.Function, *ssa.MakeClosure, *ssa.Next, *ssa.Range,
-			*ssa.MakeSlice, *ssa.MakeMap, *ssa.MakeChan, *ssa.Select:
+			*ssa.MakeMap, *ssa.MakeChan, *ssa.Select:
 			out = append(out, x)
 			return false
 		}
